@@ -199,6 +199,15 @@ pub fn build(p: &P) -> Cmd {
                 Either::Right((w, _jh)) => ctx.send_event(Event::got(t, w)),
             }
         }),
+        P::AbortSpawned(s, m) => Command::new(move |ctx| async move {
+            let jh = ctx.spawn(move |ctx| async move {
+                let v = areq(&ctx, s, 0).await;
+                ctx.send_event(Event::got(s, v));
+            });
+            jh.abort();
+            jh.await;
+            ctx.send_event(Event::mark(m, 0));
+        }),
         P::JoinTwice(s, m) => Command::new(move |ctx| async move {
             let jh = ctx.spawn(move |ctx| async move {
                 let v = areq(&ctx, s, 0).await;
